@@ -27,7 +27,7 @@ PROP = {
                 "receiving endpoint: the other subscribers never consume and lag, one subscriber keeps up and is then dropped at the remote "
                 "endpoint, its failure is noticed by a send at which all others lag; send must not fail while a subscriber is alive); every 16th case lets 2-4 OS threads send 20-120 values each concurrently on clones of the sender "
                 "(value type with a slow Clone; subscribers with room for everything must obtain every value, per-thread order kept, every "
-                "send Ok -- send is linearizable); a case is "
+                "send Ok -- send is linearizable); after the compared part of every local case all senders are dropped while subscribers may be lagging and every subscriber drains: one that missed the last values must get a lag marker before the end of the channel; a case is "
                 "non-trivial if a subscriber lagged, was dropped or joined late; distinct = distinct input",
         "assumptions": [
             "Tokio bounded mpsc semantics as stated in Rch/Broadcast.v (FIFO, capacity = messages + outstanding permits, close fails waiters)",
